@@ -187,7 +187,7 @@ Definition is_ctl (c : case) : bool := match c with CCtl _ _ => true | _ => fals
 Definition ev_kind (k : Z) (e : ctl_ev) : bool :=
   match e, k with
   | EvVisitor _ _ _, 0 | EvDeliver _, 1 | EvClient _ _, 2 | EvWake _, 3 | EvTimeout _, 4 | EvAnalyse _, 5
-  | EvSendV _, 6 | EvSendC _, 7 | EvSleepDone _, 8 | EvReport _ _, 9 | EvListen _ _ _, 10 | EvClose _, 11 | EvGiveUp _, 12 | EvProxyClose _, 13 | EvHandoverDone _, 14 | EvLoopExit _, 15 => true
+  | EvSendV _, 6 | EvSendC _, 7 | EvSleepDone _, 8 | EvReport _ _, 9 | EvListen _ _ _, 10 | EvClose _, 11 | EvGiveUp _, 12 | EvProxyClose _, 13 | EvHandoverDone _, 14 | EvLoopExit _, 15 | EvNewProxy _ _ _ _, 16 | EvCtlEnd _, 17 => true
   | _, _ => false
   end.
 Definition count_ev (k : Z) (l : list case) : Z := count_if (ev_kind k) (flat_map ctl_evs l).
